@@ -26,6 +26,9 @@ VERIF = os.path.dirname(os.path.dirname(os.path.abspath(__file__)))
 REPO = os.environ.get("WHOOSH_REPO", "/repo")
 REPO_SRC = os.path.join(REPO, "src")
 GUARD = "WHOOSH_VERIF"
+# evidence/ and replays/ go under VERIF unless redirected (used when a check
+# is pointed at a scratch copy of the repository through WHOOSH_REPO)
+OUT = os.environ.get("VERIF_OUT") or VERIF
 NPROC = int(os.environ.get("VERIF_PROCS", "16"))
 
 _scratch_root = None
@@ -292,7 +295,7 @@ def finish(ctx, mod):
     shown = 0
     for sig, v in new:
         case = v["cases"][0]
-        rp = os.path.join(VERIF, "replays", ctx.pid, digest([sig, case]) + ".json")
+        rp = os.path.join(OUT, "replays", ctx.pid, digest([sig, case]) + ".json")
         write_json(rp, {"property": ctx.pid, "sig": sig, "what": v["what"],
                         "count": v["count"], "case": case,
                         "more_cases": v["cases"][1:]})
@@ -320,7 +323,7 @@ def finish(ctx, mod):
           "assumptions": ctx.assumptions,
           "wall_s": round(time.time() - ctx.t0, 2),
           "violations": len(new)}
-    write_json(os.path.join(VERIF, "evidence", ctx.pid + ".json"), ev)
+    write_json(os.path.join(OUT, "evidence", ctx.pid + ".json"), ev)
     for l in lines:
         print(l)
     brief = dict((k, v) for k, v in cov.items()
